@@ -818,7 +818,7 @@ func checkSpecifierFreshness(p *Prog, r *Report, rule string) {
 				"the value is read from a variable that outlives one field and is not assigned on this path: the previous field's value (e.g. its enterprise number) is used for this field, so the delivered field does not match the wire", true)
 		}
 	})
-	if n < 4 {
+	if n < 2 {
 		r.Undecided(rule, "anchor: variable arguments of the registry lookup / placeholder constructor", p.pos(fr.Pos()), fmt.Sprintf("only %d found", n))
 	}
 }
